@@ -1,7 +1,7 @@
 (* C09 - format produces one canonical layout and is idempotent; --check agrees.
    Statements only; proofs in Proofs/FormatProofs.v. *)
 From Coq Require Import String.
-From Verif Require Import Base.Str Base.Lines Base.Outcome Model.Patterns Model.ParseLine Model.Format Proofs.FormatProofs Proofs.FormatIdemProofs Proofs.FormatDefLineProofs.
+From Verif Require Import Base.Str Base.Lines Base.Outcome Model.Patterns Model.ParseLine Model.Format Proofs.FormatProofs Proofs.FormatIdemProofs Proofs.FormatDefLineProofs Proofs.FormatIncLineProofs.
 From Verif Require Import Gen.Consts.
 From Verif Require Tie.Pin_standard_header Tie.Pin_lits_cmd_regex_format_processLine
   Tie.Pin_lits_cmd_regex_format_formatEndOfFile Tie.Pin_lits_cmd_regex_format_checkStandardHeader
@@ -87,3 +87,26 @@ Theorem C09_definition_line_example :
   process_line $"##!>   define   sep-1 	[\s,;]+  " 2 = (Some $"    ##!> define sep-1 [\s,;]+", 2%nat) /\
   m_definition $"##!>   define   sep-1 	[\s,;]+  " = Some ($"##!>   define   sep-1 	", $"sep-1", $"[\s,;]+").
 Proof. exact definition_line_example. Qed.
+
+(* include directives too: `##!> include FILE[ -- PAIRS]` as format prints it is read back with the
+   same file and the same pair list (the greedy file name with its backtracking, the optional pair
+   group), so line-level idempotence holds for EVERY line that is not an include-except directive
+   (that one: per case only) *)
+Theorem C09_line_idempotent_but_include_except_partial : forall line indent out next,
+  trim_left is_blank line = line -> m_include_except line = None ->
+  process_line line indent = (Some out, next) ->
+  process_line (trim_left is_blank out) indent = (Some out, next).
+Proof. exact process_line_idempotent_but_include_except. Qed.
+Print Assumptions C09_line_idempotent_but_include_except_partial.
+
+Theorem C09_lines_idempotent_but_include_except_partial : forall ls indent,
+  Forall (fun l => trim_left is_blank l = l /\ m_include_except l = None) ls ->
+  process_lines (map (trim_left is_blank) (process_lines ls indent)) indent = process_lines ls indent.
+Proof. intros ls indent. now apply process_lines_idempotent_but_include_except. Qed.
+Print Assumptions C09_lines_idempotent_but_include_except_partial.
+
+Theorem C09_include_line_example :
+  process_line $"##!>  include   words-1.ra   --   @   [\s<>]  ~  x  " 1 = (Some $"  ##!> include words-1.ra -- @   [\s<>]  ~  x", 1%nat) /\
+  m_include $"##!>  include   words-1.ra   --   @   [\s<>]  ~  x  " = Some ($"words-1.ra", $"@   [\s<>]  ~  x") /\
+  m_include $"##!> include words-1.ra -- @   [\s<>]  ~  x" = Some ($"words-1.ra", $"@   [\s<>]  ~  x").
+Proof. exact include_line_example. Qed.
